@@ -231,6 +231,36 @@ def r4_send(L, repo, tier):
             L.ob("C13.R4", F2, fn, "no datagram is emitted after a rejected encode (`%s` unreachable from the handler)" % canon(s),
                  "unreachable", "reachable" if cfg.reachable(h, sn) else "unreachable",
                  not cfg.reachable(h, sn), s.lineno)
+    # ... nor through a method that sends (transitively): closure over the self-calls of the interface's classes
+    meths = {}
+    for c_ in reversed(repo.mro(ci)):
+        meths.update(c_.methods)
+    sending = {"send", "sendto"}
+    changed = True
+    while changed:
+        changed = False
+        for nm, m_ in meths.items():
+            if nm in sending:
+                continue
+            for c in calls_in(m_):
+                if isinstance(c.func, ast.Attribute) and c.func.attr in sending and (
+                        canon(c.func.value) in ("self", "self.sock") or canon(c.func.value).endswith("Link") or canon(c.func.value) == "super()"):
+                    sending.add(nm)
+                    changed = True
+                    break
+    for h in handlers:
+        reach = cfg.reach(h)
+        bad = []
+        for n_ in cfg.nodes:
+            if n_.id in reach and n_.ast is not None and n_.kind in ("stmt", "cond", "loop", "with"):
+                own = n_.ast if n_.kind == "stmt" else (n_.ast.test if n_.kind == "cond" else n_.ast.iter if n_.kind == "loop" else None)
+                if own is None:
+                    continue
+                for c in [x for x in ast.walk(own) if isinstance(x, ast.Call)]:
+                    if isinstance(c.func, ast.Attribute) and c.func.attr in sending and canon(c.func.value) in ("self", "super()"):
+                        bad.append(canon(c)[:60])
+        L.ob("C13.R4", F2, fn, "no datagram is emitted after a rejected encode: nothing reachable from the handler calls a sending method (%s)" % ", ".join(sorted(sending)),
+             [], bad, not bad, h.line)
     for g in gens:
         gn = cfg.node_of(g)
         L.ob("C13.R4", F2, fn, "gen_msg() is called inside the try block", "inside try", len(gn.trys),
